@@ -30,6 +30,8 @@ Local Open Scope N_scope.
 (** * Identifiers *)
 Definition chain := nat.
 Definition token := nat.            (* per chain; 0 = the chain's native coin *)
+Bind Scope nat_scope with chain.
+Bind Scope nat_scope with token.
 
 Inductive holder :=
 | User (n : nat)
@@ -173,7 +175,7 @@ Definition cd_is_none (cd : calldata) : bool := match cd with CdNone => true | _
     post-transaction hook fails for a destination without light client). *)
 Definition transfer_chain (cfg : config) (c : chain) (cs : cstate) (u : nat) (tok : token) (amt : N) (dst : chain)
   (rcv : option holder) (cd : calldata) (cb : callback) (ftok : token) (fee : N) : option (cstate * packet) :=
-  if Nat.eqb c dst || negb (Nat.ltb dst (nchains cfg)) then None
+  if Nat.eqb c dst || negb (Nat.ltb dst (nchains cfg)) || negb (Nat.ltb c (nchains cfg)) then None
   else if (amt =? 0) && cd_is_none cd then None
   else match take_tokens cfg c cs (User u) tok amt dst with
        | None => None
